@@ -155,6 +155,8 @@ var sdpMenu = [][2]string{
 	{"sdp-zero-clock-rate", "v=0\r\no=- 0 0 IN IP4 127.0.0.1\r\ns=x\r\nc=IN IP4 0.0.0.0\r\nt=0 0\r\nm=video 0 RTP/AVP 96\r\na=rtpmap:96 FOO/0\r\na=control:trackID=0\r\nm=audio 0 RTP/AVP 0\r\na=control:trackID=1\r\n"},
 	{"sdp-mpeg4audio-bad-config", "v=0\r\no=- 0 0 IN IP4 127.0.0.1\r\ns=x\r\nc=IN IP4 0.0.0.0\r\nt=0 0\r\nm=audio 0 RTP/AVP 96\r\na=rtpmap:96 mpeg4-generic/48000/2\r\na=fmtp:96 profile-level-id=1; mode=AAC-hbr; sizelength=13; indexlength=3; indexdeltalength=3; config=zz\r\na=control:trackID=0\r\n"},
 	{"sdp-mpeg4video-config-ends-with-start-code", "v=0\r\no=- 0 0 IN IP4 127.0.0.1\r\ns=x\r\nc=IN IP4 0.0.0.0\r\nt=0 0\r\nm=video 0 RTP/AVP 96\r\na=rtpmap:96 MP4V-ES/90000\r\na=fmtp:96 profile-level-id=1; config=000001B001000001\r\na=control:trackID=0\r\n"},
+	{"sdp-duplicate-payload-type", "v=0\r\no=- 0 0 IN IP4 127.0.0.1\r\ns=x\r\nc=IN IP4 0.0.0.0\r\nt=0 0\r\nm=video 0 RTP/AVP 96 96\r\na=rtpmap:96 H264/90000\r\na=fmtp:96 packetization-mode=1\r\na=control:trackID=0\r\nm=audio 0 RTP/AVP 0 0\r\na=control:trackID=1\r\n"},
+	{"sdp-same-payload-type-two-codecs", "v=0\r\no=- 0 0 IN IP4 127.0.0.1\r\ns=x\r\nc=IN IP4 0.0.0.0\r\nt=0 0\r\nm=video 0 RTP/AVP 96 97 96\r\na=rtpmap:96 H264/90000\r\na=fmtp:96 packetization-mode=1\r\na=rtpmap:97 VP8/90000\r\na=control:trackID=0\r\nm=audio 0 RTP/AVP 0\r\na=control:trackID=1\r\n"},
 	{"sdp-crypto-keymgmt", "v=0\r\no=- 0 0 IN IP4 127.0.0.1\r\ns=x\r\nc=IN IP4 0.0.0.0\r\nt=0 0\r\na=key-mgmt:mikey AAAA\r\nm=video 0 RTP/SAVP 96\r\na=rtpmap:96 H264/90000\r\na=fmtp:96 packetization-mode=1\r\na=control:trackID=0\r\n"},
 }
 
